@@ -247,6 +247,39 @@ func init() {
 			}(g)
 		}
 		wg.Wait()
+		// first use of a FRESH cipher object by several goroutines at the same instant (anything the object
+		// sets up lazily on its first call must be safe): a new object per round, goroutines released together
+		for round := 0; round < 40 && len(pts) > 0; round++ {
+			c2, ok2 := c19new(key, opts)
+			if !ok2 {
+				atomic.AddInt64(&bad, 1)
+				break
+			}
+			var ready, fwg sync.WaitGroup
+			start := make(chan struct{})
+			for g := 0; g < 4; g++ {
+				ready.Add(1)
+				fwg.Add(1)
+				go func(g int) {
+					defer fwg.Done()
+					defer func() {
+						if r := recover(); r != nil {
+							atomic.AddInt64(&bad, 1)
+						}
+					}()
+					i := (round + g) % len(pts)
+					ready.Done()
+					<-start
+					ct := c2.Encrypt(pts[i])
+					if !bytes.Equal(ct, cts[i]) || !bytes.Equal(c2.Decrypt(ct), pts[i]) {
+						atomic.AddInt64(&bad, 1)
+					}
+				}(g)
+			}
+			ready.Wait()
+			close(start)
+			fwg.Wait()
+		}
 		conc := "ok"
 		if bad != 0 {
 			conc = fmt.Sprintf("mismatch:%d", bad)
